@@ -115,7 +115,10 @@ def blame(raw, off):
     kind = "?"
     for m in _START.finditer(head):
         kind = m.group(1)
-    kind = re.sub(r"\d+ ", "", kind).replace("* ", "")
+    if kind.startswith("* "):
+        kind = re.sub(r"^\d+ ", "", kind[2:])
+    elif kind not in ("+", "?"):
+        kind = "tagged " + kind.split(" ")[-1]
     if kind == "FETCH":
         item = None
         for m in _ITEM.finditer(head):
@@ -124,8 +127,6 @@ def blame(raw, off):
             kind = item             # the same names as the decode records
         elif item:
             kind = "FETCH:" + re.sub(r"\[.*", "[]", item)
-    if re.match(r"\S+ (OK|NO|BAD)$", kind):
-        kind = "tagged " + kind.split(" ")[1]
     return kind
 
 
@@ -189,6 +190,9 @@ def fn(ck, a):
     from harness import respgrammar as rg
     thorough = ck.tier == "thorough"
     tmp = tempfile.mkdtemp(prefix="verif-c07-")
+    import time
+    t0 = time.time()
+    phases = {}
     try:
         # 1. the value shapes (tiny TLC run), then the exhaustive sanity runs in the background
         cases = os.path.join(tmp, "shapes.json")
@@ -199,7 +203,14 @@ def fn(ck, a):
         with open(cases) as f:
             shapes = sorted(json.load(f))
         tpool = cf.ThreadPoolExecutor(4)
-        mc_futs = [tpool.submit(_mc, (n, A, P, B, ck.seed, None)) for n, A, P, B in UNIVERSES[ck.tier]]
+        replaying = bool(getattr(a, "replay", None))
+        mc_futs = [tpool.submit(_mc, (n, A, P, B, ck.seed, None))
+                   for n, A, P, B in ([] if replaying else UNIVERSES[ck.tier])]
+        rdir = os.path.join(os.environ.get("VERIF_EVIDENCE_DIR") or lib.ROOT, "replays", "C07")
+        if not replaying and os.path.isdir(rdir):       # replay files of earlier runs would be mistaken for this run's
+            for f in os.listdir(rdir):
+                if f.endswith(".json"):
+                    os.unlink(os.path.join(rdir, f))
 
         # 2. spec -> code
         if getattr(a, "replay", None):
@@ -210,6 +221,7 @@ def fn(ck, a):
         ctx = mp.get_context("fork")
         with ctx.Pool(11 if not thorough else 12) as pool:
             results = pool.map(_scenario, sorted(jobs, key=lambda j: j["kind"] != "names"), chunksize=1)
+        phases["drive_s"] = round(time.time() - t0, 1)
         traces = []
         jobof = {j["name"]: j for j in jobs}
         for name, trs, err in results:
@@ -243,6 +255,7 @@ def fn(ck, a):
             chunks.append(part)
         with ctx.Pool(len(paths)) as pool:
             vres = pool.map(_validate, paths)
+        phases["validate_s"] = round(time.time() - t0 - phases["drive_s"], 1)
         viol = {}      # trace -> list of (where, clause, "G"/"D")
         done = set()
         for part, r in zip(chunks, vres):
@@ -279,6 +292,8 @@ def fn(ck, a):
             elif r.rc != 0:
                 raise RuntimeError(f"TLC failed on RespGrammarMC ({name}): {r.error or r.out[-800:]}")
         tpool.shutdown()
+        phases["total_with_exhaustive_s"] = round(time.time() - t0, 1)
+        ck.cov["phases"] = phases
         ck.cov["exhaustive"] = all(x["complete"] for x in ck.cov["tlc_runs"])
 
         # coverage
